@@ -504,10 +504,6 @@ Proof. unfold length_ok. lia. Qed.
 (* ------------------------------------------------------------------------- *)
 (* C14: the main statements                                                   *)
 (* ------------------------------------------------------------------------- *)
-(* [chunk_side cfg es]: the part of the array-size limit that is not covered - either the
-   configuration has no array-size limit, or the event list has no chunked arrays *)
-Definition chunk_side (cfg : rcfg) (es : list event) : Prop := max_array_size_bytes cfg = 0 \/ no_chunks es = true.
-
 Lemma steps_sufficient cfg cfg' es c :
   cfg_le cfg cfg' -> steps cfg' init_rctx es = Some c -> within_limits cfg es -> chunk_side cfg es ->
   steps cfg init_rctx es = Some c.
@@ -573,3 +569,31 @@ Proof.
   - intro A. split; [exists cfg; split; [apply cfg_le_refl | exact A] | apply limits_necessary; exact A].
   - intros [[cfg' [Hle A]] [Wo [Wd [Wa Wi]]]]. eapply limits_sufficient; eauto. unfold within_limits. auto.
 Qed.
+
+(* Off-by-one exactness: with the object, depth and identifier limits set to exactly the measured usage the
+   list is still accepted (and by [limits_necessary] with any of them one lower it is not). *)
+Theorem limits_tight cfg es :
+  accepts cfg es = true -> marker_usage es <= max_local_reference_count cfg -> chunk_side cfg es ->
+  accepts (usage_cfg cfg es) es = true.
+Proof.
+  intros A M S. destruct (limits_necessary _ _ A) as [No [Nd [Na Ni]]].
+  apply (limits_sufficient (usage_cfg cfg es) cfg es); auto.
+  - unfold cfg_le, usage_cfg; cbn. repeat split; try lia.
+  - unfold within_limits, usage_cfg; cbn. repeat split; try lia. exact Na.
+Qed.
+
+(* ------------------------------------------------------------------------- *)
+(* Findings                                                                   *)
+(* ------------------------------------------------------------------------- *)
+(* The marker limit (MaxLocalReferenceCount is the field consulted) is not necessary: a marker on a
+   chunked string in map-key position is never registered, so a complete document with one marker is
+   accepted under a limit of zero. *)
+Definition marker_limit_witness_cfg : rcfg :=
+  {| max_object_count := 100; max_container_depth := 10; max_array_size_bytes := 100; max_identifier_length := 10;
+     max_local_reference_count := 0; expected_version := 0 |}.
+Definition marker_limit_witness : list event :=
+  [EBeginDoc; EVersion 0; EMap; EMarker [97]; EArrayBegin AT_String; EArrayChunk 1 false; EArrayData [120]; ENull; EEnd; EEndDoc].
+
+Lemma marker_limit_necessary_refuted :
+  exists cfg es, accepts_document cfg es = true /\ max_local_reference_count cfg < marker_usage es.
+Proof. exists marker_limit_witness_cfg, marker_limit_witness. vm_compute. split; reflexivity. Qed.
